@@ -235,8 +235,82 @@ let run_pie_case (idx : int) (toks : string list) (fuel : nat) (with_dump : bool
     incr step
   done
 
+
+(* ------------------------------------------------------------------ tracker probe *)
+let parse_cres (s : string) : cres =
+  if s = "ok" then Consistent else if s = "inc" then Inconsistent else CErr (z_of_int (int_of_string (String.sub s 3 (String.length s - 3))))
+let parse_event (t : toks) : event =
+  let n () = n_of_int (num t) and z () = z_of_int (num t) in
+  match next t with
+  | "BS" -> EBuildStart | "BE" -> EBuildEnd
+  | "RS" -> let k = n () in let c = n () in ERequireStart (k, c)
+  | "RE" -> let k = n () in let c = n () in let st = z () in let o = z () in ERequireEnd (k, c, st, o)
+  | "rS" -> let k = n () in let c = n () in EReadStart (k, c)
+  | "rE" -> let k = n () in let c = n () in let st = z () in EReadEnd (k, c, st)
+  | "wS" -> let k = n () in let c = n () in EWriteStart (k, c)
+  | "wE" -> let k = n () in let c = n () in let st = z () in EWriteEnd (k, c, st)
+  | "CTS" -> let k = n () in let c = n () in let st = z () in ECheckTaskStart (k, c, st)
+  | "CTE" -> let k = n () in let c = n () in let st = z () in let i = num t in ECheckTaskEnd (k, c, st, i = 1)
+  | "CRS" -> let k = n () in let c = n () in let st = z () in ECheckResStart (k, c, st)
+  | "CRE" -> let k = n () in let c = n () in let st = z () in let r = parse_cres (next t) in ECheckResEnd (k, c, st, r)
+  | "XS" -> EExecStart (n ())
+  | "XE" -> let k = n () in let o = z () in EExecEnd (k, o)
+  | "SBTS" -> ESchedByTaskStart (n ()) | "SBTE" -> ESchedByTaskEnd (n ())
+  | "CQS" -> let k = n () in let c = n () in let st = z () in ECheckReqTaskStart (k, c, st)
+  | "CQE" -> let k = n () in let c = n () in let st = z () in let i = num t in ECheckReqTaskEnd (k, c, st, i = 1)
+  | "SBRS" -> ESchedByResStart (n ()) | "SBRE" -> ESchedByResEnd (n ())
+  | "CDS" -> let k = n () in let c = n () in let st = z () in ECheckReadResStart (k, c, st)
+  | "CDE" -> let k = n () in let c = n () in let st = z () in let r = parse_cres (next t) in ECheckReadResEnd (k, c, st, r)
+  | "ST" -> ESchedTask (n ())
+  | x -> failwith ("bad event " ^ x)
+
+let tevent_text (e : tevent) : string = match e with
+  | TBuildStart -> "BS" | TBuildEnd -> "BE"
+  | TRequireStart ((_, k), c, i) -> Printf.sprintf "RS %s %s@%s" (pn k) (pn c) (pn i)
+  | TRequireEnd ((_, k), c, st, o, i) -> Printf.sprintf "RE %s %s %s %s@%s" (pn k) (pn c) (pz st) (pz o) (pn i)
+  | TReadStart ((_, k), c, i) -> Printf.sprintf "rS %s %s@%s" (pn k) (pn c) (pn i)
+  | TReadEnd ((_, k), c, st, i) -> Printf.sprintf "rE %s %s %s@%s" (pn k) (pn c) (pz st) (pn i)
+  | TWriteStart ((_, k), c, i) -> Printf.sprintf "wS %s %s@%s" (pn k) (pn c) (pn i)
+  | TWriteEnd ((_, k), c, st, i) -> Printf.sprintf "wE %s %s %s@%s" (pn k) (pn c) (pz st) (pn i)
+  | TExecuteStart ((_, k), i) -> Printf.sprintf "XS %s@%s" (pn k) (pn i)
+  | TExecuteEnd ((_, k), o, i) -> Printf.sprintf "XE %s %s@%s" (pn k) (pz o) (pn i)
+
+let run_tracker_case (idx : int) (toks : string list) =
+  Printf.printf "C %d\n" idx;
+  let t = { l = toks } in
+  let evs = ref [] in
+  while peek t <> None do evs := !evs @ [parse_event t] done;
+  Printf.printf "v %s\n" (join ";" (List.map event_text !evs));
+  (* CompositeTracker (model): both children get the identical stream *)
+  let step (s : event list) (e : event) = s @ [e] in
+  let (a, (b, c)) = List.fold_left (fun s e -> composite_step step (composite_step step step) s e) ([], ([], [])) !evs in
+  Printf.printf "c %s\n" (if a = !evs && b = !evs && c = !evs then "1" else "0");
+  let et = et_run !evs in
+  Printf.printf "t %s\n" (join ";" (List.map tevent_text et.et_events));
+  let subjects = [ktask (n_of_int 1); ktask (n_of_int 2); kres (n_of_int 1); kres (n_of_int 2)] in
+  let bb x = if x then "1" else "0" in
+  let sm x = match x with Some _ -> "1" | None -> "0" in
+  List.iteri (fun i e ->
+      let s = Buffer.create 64 in
+      Buffer.add_string s (Printf.sprintf "h %d %s%s%s" i (bb (is_build_start e)) (bb (is_build_end e)) (bb (is_execute e)));
+      List.iter (fun k ->
+          Buffer.add_string s (" " ^ sm (match_require_start e k) ^ sm (match_require_end e k) ^ sm (match_read_start e k) ^ sm (match_read_end e k)
+                               ^ sm (match_write_start e k) ^ sm (match_write_end e k) ^ bb (is_execute_of e k)
+                               ^ sm (match_execute_start e k) ^ sm (match_execute_end e k))) subjects;
+      print_endline (Buffer.contents s)) et.et_events;
+  let rng x = match range_of x with Some (a, b) -> pn a ^ ".." ^ pn b | None -> "-" in
+  let ix x = match x with Some e -> (match tindex e with Some i -> pn i | None -> "-") | None -> "-" in
+  List.iteri (fun j k ->
+      Printf.printf "f %d req=%s read=%s write=%s exec=%s fre=%s fwe=%s fxe=%s anyxof=%s onexof=%s\n" j
+        (rng (first_require et k)) (rng (first_read et k)) (rng (first_write et k)) (rng (first_execute et k))
+        (ix (first_read_end et k)) (ix (first_write_end et k)) (ix (first_execute_end et k))
+        (bb (any_execute_of et k)) (bb (one_execute_of et k))) subjects;
+  Printf.printf "g anyx=%s\n" (bb (any_execute et))
+
 let () =
   match Array.to_list Sys.argv with
+  | _ :: "tracker" :: file :: _ ->
+    iter_lines file (fun i l -> run_tracker_case i (split_ws l))
   | _ :: "pie" :: file :: rest ->
     let fuel = nat_of_int 3000 in
     let with_dump = not (List.mem "--nodump" rest) in
